@@ -720,6 +720,18 @@ func genGarbage(r *rand.Rand, id string, size int, total int) []string {
 			g.add("unchanged %d", q)
 		}
 	}
+	if kind == "doc" && g.pick(2) == 0 {
+		// a writer is not bound to what the store API writes: a validly signed entry whose batch of
+		// documents holds a `null` member reaches the others like any other entry
+		a := peers[g.pick(len(peers))]
+		q := peers[g.pick(len(peers))]
+		for q == a {
+			q = peers[g.pick(len(peers))]
+		}
+		g.add("forge %d recipe=own base=%d k=%s v=%s raw=%s", a, a, hx([]byte("d1")), hx([]byte("x")), hx([]byte(`{"key":"","op":"PUTALL","docs":[null]}`)))
+		g.add("inject %d heads=@last route=%s from=%d", q, []string{"pub", "dc"}[g.pick(2)], a)
+		g.add("obs %d", q)
+	}
 	// later valid traffic must still be handled
 	for _, p := range peers {
 		for _, q := range peers {
@@ -1009,6 +1021,25 @@ func genLimit(r *rand.Rand, id string, size int, total int) []string {
 	for _, a := range g.r.Perm(n + 6) {
 		g.add("restart %d %d", p, a-2)
 		g.add("obs %d", p)
+		// now and then the partially loaded store takes part in a replication round (or writes) before
+		// the next restart: nothing the cache pointed to may be forgotten by it
+		if len(peers) > 1 && g.pick(4) == 0 {
+			w := peers[1+g.pick(len(peers)-1)]
+			if kind == "log" {
+				g.add("add %d %s", w, hx(g.value()))
+			} else {
+				g.add("put %d %s %s", w, hx([]byte{byte('a' + g.pick(3))}), hx(g.value()))
+			}
+			g.add("sync %d %d", p, w)
+			g.add("obs %d", p)
+		} else if g.pick(6) == 0 {
+			if kind == "log" {
+				g.add("add %d %s", p, hx(g.value()))
+			} else {
+				g.add("put %d %s %s", p, hx([]byte{byte('a' + g.pick(3))}), hx(g.value()))
+			}
+			g.add("obs %d", p)
+		}
 	}
 	g.add("restart %d -1", p)
 	g.add("obs %d", p)
